@@ -311,6 +311,9 @@ func goTypeName(t types.Type, fn *ssa.Function) string {
 // detail: "reproduced" | "not-reproduced" | "no-replay".
 func replay(p *Program, cfg *PropConfig, r *oblResult, dir, repo, verif string) (string, bool, string) {
 	o := r.O
+	if o.template != nil {
+		return replayTemplate(o, r, cfg, dir, repo)
+	}
 	os.MkdirAll(dir, 0o755)
 	path := filepath.Join(dir, sanitize(o.Name)+".json")
 	rf := replayFile{Property: cfg.ID, Obligation: o.Name, Kind: o.Kind, Clause: o.Desc, At: o.Pos, Solver: r.R.Solver, Answer: r.R.Answer, SolverOut: truncate(r.R.Raw, 4000)}
